@@ -38,11 +38,11 @@ Theorem C16_generated_printer_is_ty_string : forall t, wf_names t -> forall extr
   call_printer impl [] (2 * depth t + 3 + extra) (tyname t) "String" (reify_ty t) = Ok (VStr (ty_string t)).
 Proof. exact generated_printer_is_ty_string. Qed.
 
-(* regenerated tie (ii): the twelve Equal methods as they are in the source now compute equal_go,
-   for every loop-free t (no literal struct, no function type outside a pointer) against every u *)
-Theorem C16_generated_equal_is_equal_go_partial : forall t, loop_free t -> wf_names t -> forall u, wf_names u -> forall n,
+(* regenerated tie (ii): the twelve Equal methods as they are in the source now (the index loops of literal
+   struct and function types included) compute equal_go, for every t against every u, at any sufficient fuel *)
+Theorem C16_generated_equal_is_equal_go : forall t, wf_names t -> forall u, wf_names u -> forall n,
   2 * (depth t + depth u) + 5 <= n -> run_equal n t u = Ok (VBool (equal_go t u)).
-Proof. exact generated_equal_is_equal_go_partial. Qed.
+Proof. exact generated_equal_is_equal_go. Qed.
 (* ... and agree with it on all 961 ordered pairs of 31 sample types covering every kind (a finite
    test inside Coq, labelled as such) *)
 Theorem C16_generated_equal_agrees_on_samples : forallb (fun t => forallb (fun u => agree t u) samples) samples = true.
